@@ -125,17 +125,17 @@ partitions:
 
 // Opts of one concurrent run.
 type Opts struct {
-	Duration   time.Duration
-	Clients    int
+	Duration      time.Duration
+	Clients       int
 	YieldPermille int32
-	PredDelayUs int // maximum predicate delay in microseconds (widens the check-then-add window)
-	Reload     bool
-	Rest       bool
-	HotNode    bool // single small node hammered by capacity changes and RM-bound allocations (C01 window)
-	Gang       bool
-	NodeRemoval bool // decommission nodes while scheduling (known findings live there)
-	AppRemoval  bool // remove applications while scheduling
-	RMBound     bool // allocations reported as already bound by the RM (recovery path) while scheduling
+	PredDelayUs   int // maximum predicate delay in microseconds (widens the check-then-add window)
+	Reload        bool
+	Rest          bool
+	HotNode       bool // single small node hammered by capacity changes and RM-bound allocations (C01 window)
+	Gang          bool
+	NodeRemoval   bool // decommission nodes while scheduling (known findings live there)
+	AppRemoval    bool // remove applications while scheduling
+	RMBound       bool // allocations reported as already bound by the RM (recovery path) while scheduling
 }
 
 type appState struct {
@@ -148,24 +148,24 @@ type appState struct {
 }
 
 type runner struct {
-	c      *shim.Core
-	o      Opts
-	seed   uint64
-	mu     sync.Mutex
-	apps   map[string]*appState
-	nodes  map[string]bool
-	stop   atomic.Bool
-	ops    atomic.Int64
-	obs    map[string]int64
-	obsMu  sync.Mutex
-	restPanics atomic.Int64
-	probeBad   atomic.Int64
-	probeAdds  atomic.Int64
-	probeWindow atomic.Int64
-	badDetail  atomic.Value
-	keyN   atomic.Int64
+	c            *shim.Core
+	o            Opts
+	seed         uint64
+	mu           sync.Mutex
+	apps         map[string]*appState
+	nodes        map[string]bool
+	stop         atomic.Bool
+	ops          atomic.Int64
+	obs          map[string]int64
+	obsMu        sync.Mutex
+	restPanics   atomic.Int64
+	probeBad     atomic.Int64
+	probeAdds    atomic.Int64
+	probeWindow  atomic.Int64
+	badDetail    atomic.Value
+	keyN         atomic.Int64
 	nodeRemovals atomic.Int64
-	reloads atomic.Int64
+	reloads      atomic.Int64
 }
 
 func (r *runner) count(k string, n int64) {
@@ -512,7 +512,7 @@ func (r *runner) restReader(id int, h http.Handler, wg *sync.WaitGroup) {
 
 // Result of one run.
 type Result struct {
-	Case       *det.CaseResult
+	Case *det.CaseResult
 }
 
 var raceFrame = regexp.MustCompile(`^\s+(github\.com/apache/yunikorn-core/[^\s(]+(?:\([^)]*\))?[^\s(]*)\(`)
